@@ -427,6 +427,10 @@ impl LExec {
                 if k <= self.m.low && self.m.low > 0 {
                     return Ok(());
                 }
+                // ... nor at or below what has been applied (committed entries are never removed)
+                if k <= self.m.applied {
+                    return Ok(());
+                }
                 let r = within(60_000, self.store().delete_logs_from(k, None)).await;
                 match r {
                     None => vfail!(&clause(id, "op_hang"), "delete_logs_from({}) did not answer", k),
@@ -638,6 +642,11 @@ impl LExec {
             }
             if name.contains("/log_") {
                 logs += 1;
+                if let Some(data) = tokio::fs::read_file_raw(name) {
+                    if data.last().map(|b| *b != 0).unwrap_or(false) {
+                        self.probe("record_ends_at_file_end");
+                    }
+                }
             }
         }
         if logs >= 2 {
@@ -665,7 +674,8 @@ impl LExec {
         }
         let term = self.m.entries.get(&at).map(|e| e.term).unwrap_or(self.m.term);
         let h = self.h.as_ref().unwrap();
-        let (members, after) = self.m.members.clone().unwrap_or((vec![1], vec![]));
+        // do_build_snapshot takes the membership from the index manager (empty when none was saved)
+        let (members, after) = self.m.members.clone().unwrap_or((vec![], vec![]));
         let header = SnapshotHeaderDto {
             last_index: at,
             last_term: term,
@@ -732,8 +742,50 @@ impl LExec {
             None => self.m.term,
         };
         let h = self.h.as_ref().unwrap();
-        let sid = self.next_snapshot_id + 1000;
-        self.next_snapshot_id += 1;
+        // the snapshot itself, as async-raft delivers it: create_snapshot (real), stream the bytes, then
+        // the snapshot manager's InstallSnapshot (first request of finalize_snapshot_installation)
+        let (sid_str, mut file) = match within(60_000, h.store.create_snapshot()).await {
+            Some(Ok(v)) => v,
+            _ => return Ok(()), // a compaction is being packaged: async-raft would retry
+        };
+        let sid: u64 = sid_str.parse().unwrap_or(0);
+        {
+            use tokio::io::AsyncWriteExt;
+            let (members, after) = self.m.members.clone().unwrap_or((vec![1], vec![]));
+            let header = SnapshotHeaderDto {
+                last_index: idx,
+                last_term: term,
+                member: members,
+                member_after_consensus: after,
+                node_addrs: self.m.addrs.iter().map(|(k, v)| (*k, Arc::new(v.clone()))).collect(),
+            };
+            let mut buf = Vec::new();
+            let mut w = quick_protobuf::Writer::new(&mut buf);
+            w.write_message(&header.to_record_do()).ok();
+            file.write_all(&buf).await.ok();
+            file.shutdown().await.ok();
+        }
+        h.sm.send(RaftSnapshotRequest::InstallSnapshot { end_index: idx, snapshot_id: sid }).await.ok();
+        // second request of finalize_snapshot_installation: ApplySnapshot saves the membership of the
+        // new snapshot's header (the state machine part is absent in Rig-L)
+        {
+            let (members, after) = self.m.members.clone().unwrap_or((vec![1], vec![]));
+            h.im.send(RaftIndexRequest::SaveMember {
+                member: members.clone(),
+                member_after_consensus: if after.is_empty() { None } else { Some(after.clone()) },
+                node_addr: Some(self.m.addrs.iter().map(|(k, v)| (*k, Arc::new(v.clone()))).collect()),
+            })
+            .await
+            .ok();
+            if self.m.members.is_none() {
+                self.m.members = Some((members, after));
+                self.m.push_reg();
+            }
+        }
+        self.m.snapshots.push((sid, idx));
+        if self.m.snapshots.len() > 2 {
+            self.m.snapshots.remove(0);
+        }
         let split_off_index = if let Some(v) = delete_through { v + 1 } else { u64::MAX }; // mirrors FileStore::finalize_snapshot_installation
         h.lm.send(RaftLogManagerRequest::SplitOff(split_off_index)).await.ok();
         let entry: Entry<ClientRequest> = Entry::new_snapshot_pointer(idx, term, sid.to_string(), MembershipConfig { members: [1u64].iter().cloned().collect(), members_after_consensus: None });
@@ -741,6 +793,8 @@ impl LExec {
         let pj = payload_json(&entry.payload);
         h.lm.send(RaftLogManagerRequest::InstallSnapshotPointerLog(record)).await.ok();
         sim::event(&format!("ack install_pointer idx={} delete_through={:?}", idx, delete_through));
+        // an installed snapshot supersedes the pointer staged by an earlier local compaction
+        self.m.staged_pointer = None;
         // an installed snapshot replaces the log up to and including idx; with delete_through = None
         // it replaces all of it (async-raft continues at idx + 1)
         if delete_through.is_none() {
@@ -1059,6 +1113,26 @@ pub struct GenShadow {
     pub uniq: u64,
     pub known: bool,
     pub count: u64,
+    /// absolute data cursor in the current log file and its pre-allocated length (valid while `known`
+    /// and no roll-over happened)
+    pub abs: usize,
+    pub file_len: usize,
+}
+
+impl GenShadow {
+    pub fn account(&mut self, fs: usize) {
+        if self.file_len <= self.abs + fs {
+            self.file_len += std::cmp::max(fs, 1024 * 1024);
+        }
+        self.abs += fs;
+        self.since_idx += fs;
+        self.cnt += 1;
+        if self.interval > 0 && self.cnt % self.interval == 0 {
+            self.since_idx = 0;
+        }
+        self.next += 1;
+        self.count += 1;
+    }
 }
 
 pub fn gen_pad(rng: &mut Rng, sh: &mut GenShadow, aligned_hits: &mut u64) -> usize {
@@ -1092,12 +1166,302 @@ pub fn gen_pad(rng: &mut Rng, sh: &mut GenShadow, aligned_hits: &mut u64) -> usi
         rng.range(0, 300) as usize
     };
     let fs = frame_size(sh.next, sh.term, &mk_payload(sh.uniq, pad, 0));
-    sh.since_idx += fs;
-    sh.cnt += 1;
-    if sh.interval > 0 && sh.cnt % sh.interval == 0 {
-        sh.since_idx = 0;
-    }
-    sh.next += 1;
-    sh.count += 1;
+    sh.account(fs);
     pad
+}
+
+/// a record that ends exactly at (or one byte around) the pre-allocated end of the log file
+pub fn gen_pad_to_file_end(rng: &mut Rng, sh: &mut GenShadow) -> Option<usize> {
+    if !sh.known || sh.file_len <= sh.abs + 64 {
+        return None;
+    }
+    let delta = *rng.pick(&[0i64, 0, 0, -1, 1]);
+    let want = (sh.file_len - sh.abs) as i64 + delta;
+    sh.uniq += 1;
+    match pad_for_frame(sh.next, sh.term, sh.uniq, want as usize) {
+        Some(p) => {
+            let fs = frame_size(sh.next, sh.term, &mk_payload(sh.uniq, p, 0));
+            sh.account(fs);
+            Some(p)
+        }
+        None => {
+            sh.uniq -= 1;
+            None
+        }
+    }
+}
+
+// ---------------------------------------------------------------------------
+// C04: crash images. One fault-free execution of a history yields the journal of file
+// mutations; every prefix of it is a disk image on which the real recovery is run.
+
+#[derive(Clone)]
+pub struct Checkpoint {
+    /// journal length (mutations of the node) at a point where everything issued had completed
+    pub jlen: usize,
+    pub model: LModel,
+    pub step: usize,
+}
+
+fn node_prefix(root: &str) -> String {
+    format!("{}/{}/", root, NODE)
+}
+
+pub async fn exec_c04(script: Value) -> ExecResult {
+    let id = "C04";
+    let seed = script["seed"].as_u64().unwrap_or(1);
+    let cfg: LCfg = serde_json::from_value(script["cfg"].clone()).unwrap_or_default();
+    let max_images = script["max_images"].as_u64().unwrap_or(150) as usize;
+    let steps: Vec<LStep> = match serde_json::from_value(script["steps"].clone()) {
+        Ok(s) => s,
+        Err(e) => return ExecResult { violation: Some(Violation::new("harness.script", format!("bad script: {}", e))), info: RunInfo::default() },
+    };
+    tokio::fs::set_cfg(cfg.disk());
+    let mut x = LExec::new(id, seed, cfg.clone());
+    x.open();
+    // the store's own start-up writes belong to the history
+    let _ = within(60_000, x.store().get_initial_state()).await;
+    settle().await;
+    let mut cps: Vec<Checkpoint> = vec![Checkpoint { jlen: 0, model: x.m.clone(), step: 0 }];
+    let node_jlen = || tokio::fs::with_disk(|d| d.journal.iter().filter(|e| e.node == NODE).count());
+    cps.push(Checkpoint { jlen: node_jlen(), model: x.m.clone(), step: 0 });
+    // phase A: the history, fault-free; a checkpoint after every step
+    for (i, st) in steps.iter().enumerate() {
+        sim::event(&format!("step {} {}", i, serde_json::to_string(st).unwrap_or_default().chars().take(100).collect::<String>()));
+        let r = async {
+            x.step(st).await?;
+            settle().await;
+            let when = format!("phase A after step {} ({})", i, step_name(st));
+            x.check_log(&when).await?;
+            x.check_state(&when, matches!(st, LStep::Reopen)).await?;
+            settle().await;
+            Ok::<(), Violation>(())
+        }
+        .await;
+        if let Err(v) = r {
+            // the fault-free execution itself misbehaves: that is C02/C03/C05's finding, not a crash finding
+            let info = RunInfo { digest: 0, nontrivial: false, info: json!({"phase_a_failed": v.clause}), findings: vec![] };
+            if let Some(h) = x.h.take() {
+                kill(h, NODE);
+            }
+            return ExecResult { violation: Some(Violation::new(&clause(id, "phase_a"), format!("fault-free execution already violates {}: {}", v.clause, v.msg))), info };
+        }
+        cps.push(Checkpoint { jlen: node_jlen(), model: x.m.clone(), step: i + 1 });
+    }
+    if let Some(h) = x.h.take() {
+        kill(h, NODE);
+    }
+    let journal: Vec<tokio::fs::JEntry> = tokio::fs::journal_clone().into_iter().filter(|e| e.node == NODE).collect();
+    tokio::fs::with_disk(|d| {
+        d.journal_on = false;
+        d.journal.clear();
+    });
+    let total = journal.len();
+    // phase B: crash prefixes
+    let mut ks: Vec<usize> = vec![];
+    if total + 1 <= max_images {
+        ks = (0..=total).collect();
+    } else {
+        use tokio::fs::JOp;
+        let mut set = std::collections::BTreeSet::new();
+        for (i, e) in journal.iter().enumerate() {
+            let structural = match &e.op {
+                JOp::Write { off, .. } => *off < 4096,
+                JOp::Flush { .. } => false,
+                _ => true,
+            };
+            if structural {
+                set.insert(i);
+                set.insert(i + 1);
+            }
+        }
+        let mut v: Vec<usize> = set.into_iter().collect();
+        let mut rng = Rng::derive(seed, "C04.ks", 0);
+        // thin out structural points if there are too many, then fill with random positions
+        while v.len() > max_images * 2 / 3 {
+            let i = rng.below(v.len() as u64) as usize;
+            v.remove(i);
+        }
+        let mut set: std::collections::BTreeSet<usize> = v.into_iter().collect();
+        while set.len() < max_images {
+            set.insert(rng.below(total as u64 + 1) as usize);
+        }
+        set.insert(total);
+        ks = set.into_iter().collect();
+    }
+    let prefix = node_prefix(&x.root);
+    let mut violation = None;
+    let mut images = 0u64;
+    let mut digests = 0u64;
+    let mut findings: Vec<Violation> = vec![];
+    for k in ks {
+        let img = tokio::fs::image_at(&journal, NODE, k);
+        digests = digests.wrapping_mul(31).wrapping_add(img.digest());
+        // checkpoint bracket
+        let mut j = 0;
+        for (ci, c) in cps.iter().enumerate() {
+            if c.jlen <= k {
+                j = ci;
+            }
+        }
+        let prev = &cps[j].model;
+        let next = if j + 1 < cps.len() { &cps[j + 1].model } else { &cps[j].model };
+        let what = if j + 1 < cps.len() && cps[j + 1].step >= 1 && cps[j + 1].step <= steps.len() {
+            format!("crash after {} of {} file mutations, i.e. inside step {} ({})", k, total, cps[j + 1].step - 1, step_name(&steps[cps[j + 1].step - 1]))
+        } else {
+            format!("crash after {} of {} file mutations (start-up / end)", k, total)
+        };
+        images += 1;
+        sim::count("fault.crash_image", 1);
+        sim::event(&format!("image k={} bracket={}", k, j));
+        let panics_before = panics_so_far();
+        let hist: Vec<LModel> = cps[..(j + 2).min(cps.len())].iter().map(|c| c.model.clone()).collect();
+        let r = recover_and_check(&x.root, &prefix, &img, prev, next, &what, &cfg, &hist).await;
+        if let Err(v) = r {
+            let mut v = v;
+            v.msg = format!("[k={}] {}", k, v.msg);
+            // root-cause signature: the image's catalogue lists a log file that does not exist (the
+            // files are unlinked before the catalogue that drops them is saved)
+            if let Some(missing) = catalogue_missing_log_file(&img, &prefix) {
+                sim::count("probe.image_catalogue_lists_missing_log", 1);
+                if findings.is_empty() {
+                    findings.push(Violation::new(&clause(id, "catalogue_lists_missing_log_file"), format!("{} - the catalogue on disk still lists {} which has already been unlinked; consequence: {}: {}", what, missing, v.clause, v.msg)));
+                }
+                continue;
+            }
+            violation = Some(v);
+            break;
+        }
+        if panics_so_far() > panics_before {
+            violation = Some(Violation::new(&clause(id, "actor_panic"), format!("[k={}] {}: a store task panicked during recovery: {}", k, what, peek_panics().join(" | "))));
+            break;
+        }
+    }
+    let info = RunInfo {
+        digest: digests,
+        nontrivial: images >= 10,
+        info: json!({"journal": total, "images": images, "checkpoints": cps.len()}),
+        findings,
+    };
+    ExecResult { violation, info }
+}
+
+/// Some(file name) when the catalogue stored in the image lists a log file that the image does not contain
+fn catalogue_missing_log_file(img: &tokio::fs::Image, prefix: &str) -> Option<String> {
+    use quick_protobuf::BytesReader;
+    use rnacos::raft::filestore::log::RaftIndex;
+    let data = img.file(&format!("{}index", prefix))?;
+    if data.len() < 10 || data[8] == 0 {
+        return None;
+    }
+    let body = &data[8..];
+    let mut r = BytesReader::from_bytes(body);
+    let idx: RaftIndex = r.read_message(body).ok()?;
+    for l in &idx.logs {
+        let name = format!("{}log_{}", prefix, l.id);
+        if !img.names.contains_key(&name) {
+            return Some(format!("log_{}", l.id));
+        }
+    }
+    None
+}
+
+async fn recover_and_check(root: &str, prefix: &str, img: &tokio::fs::Image, prev: &LModel, next: &LModel, what: &str, cfg: &LCfg, hist: &[LModel]) -> VResult<()> {
+    let id = "C04";
+    tokio::fs::crash(NODE);
+    tokio::fs::install_image(prefix, img);
+    rnacos::verif_hook::set_log_knob(cfg.interval, cfg.area);
+    let h = open_store(root, NODE);
+    // (1) opens
+    let st = match within(120_000, h.store.get_initial_state()).await {
+        Some(Ok(s)) => s,
+        Some(Err(e)) => vfail!(&clause(id, "reopen_failed"), "{}: the store does not reopen: get_initial_state: {}", what, e),
+        None => vfail!(&clause(id, "reopen_hang"), "{}: get_initial_state does not answer within 120 simulated s", what),
+    };
+    let hi = prev.next.max(next.next) + 8;
+    let got = match within(120_000, h.store.get_log_entries(0, hi)).await {
+        Some(Ok(v)) => v,
+        Some(Err(e)) => vfail!(&clause(id, "reopen_failed"), "{}: get_log_entries: {}", what, e),
+        None => vfail!(&clause(id, "reopen_hang"), "{}: get_log_entries does not answer", what),
+    };
+    // (2) contiguous, (3) only submitted entries with their term and payload
+    let mut prevq: Option<u64> = None;
+    for e in &got {
+        if let Some(p) = prevq {
+            vensure!(e.index == p + 1, &clause(id, "gap"), "{}: recovered log not contiguous: {} follows {}", what, e.index, p);
+        }
+        prevq = Some(e.index);
+        let pj = payload_json(&e.payload);
+        let ok_prev = prev.entries.get(&e.index).map(|m| m.term == e.term && m.payload == pj).unwrap_or(false);
+        let ok_next = next.entries.get(&e.index).map(|m| m.term == e.term && m.payload == pj).unwrap_or(false);
+        vensure!(ok_prev || ok_next, &clause(id, "foreign_entry"), "{}: recovered entry {} (term {}, {}) matches neither the state before nor after the interrupted step (before: {:?}, after: {:?})", what, e.index, e.term, trunc(&pj), prev.entries.get(&e.index).map(|m| (m.term, trunc(&m.payload))), next.entries.get(&e.index).map(|m| (m.term, trunc(&m.payload))));
+    }
+    // (4) everything acknowledged and completed before the crash and not touched by the interrupted step
+    let low = prev.low.max(next.low);
+    let got_idx: HashSet<u64> = got.iter().map(|e| e.index).collect();
+    for (i, m) in prev.entries.range(low..) {
+        if next.entries.get(i) == Some(m) {
+            vensure!(got_idx.contains(i), &clause(id, "lost_entry"), "{}: entry {} was acknowledged and on disk before the interrupted step and is not touched by it, but the recovered log is {:?}..{:?} ({} entries)", what, i, got.first().map(|e| e.index), got.last().map(|e| e.index), got.len());
+        }
+    }
+    // consistency of the two views of the end of the log
+    if let Some(last) = got.last() {
+        vensure!(st.last_log_index == last.index, &clause(id, "last_index_mismatch"), "{}: get_initial_state reports last_log_index {} but the readable log ends at {}", what, st.last_log_index, last.index);
+        vensure!(st.last_log_term == last.term, &clause(id, "last_index_mismatch"), "{}: get_initial_state reports last_log_term {} but entry {} has term {}", what, st.last_log_term, last.index, last.term);
+    } else if prev.started && next.started && !prev.entries.is_empty() && !next.entries.is_empty() {
+        // nothing readable although both bracketing states have entries
+        let any_stable = prev.entries.range(low..).any(|(i, m)| next.entries.get(i) == Some(m));
+        vensure!(!any_stable, &clause(id, "lost_entry"), "{}: recovered log is empty", what);
+    }
+    // (5) register equals a value written before the kill
+    let hs = (st.hard_state.current_term, st.hard_state.voted_for.unwrap_or(0));
+    // the statement asks for "some value written before the kill" (non-regression of acknowledged values is C05)
+    let hs_ok = hist.iter().any(|m| hs == m.hs.unwrap_or((0, 0)));
+    vensure!(hs_ok, &clause(id, "hard_state"), "{}: recovered (term,vote) {:?} was never written (values written so far: {:?})", what, hs, hist.iter().map(|m| m.hs).collect::<Vec<_>>());
+    let mem_norm = |m: &Option<(Vec<u64>, Vec<u64>)>| -> (Vec<u64>, Vec<u64>) {
+        let (mut a, mut b) = m.clone().unwrap_or((vec![], vec![]));
+        a.sort();
+        b.sort();
+        (a, b)
+    };
+    let mut om: Vec<u64> = st.membership.members.iter().cloned().collect();
+    om.sort();
+    let mut oa: Vec<u64> = st.membership.members_after_consensus.clone().unwrap_or_default().into_iter().collect();
+    oa.sort();
+    let obs = (om, oa);
+    vensure!(hist.iter().any(|m| obs == mem_norm(&m.members)), &clause(id, "membership"), "{}: recovered membership {:?} was never written (before/after the interrupted step: {:?} / {:?})", what, obs, prev.members, next.members);
+    // (6) last applied never beyond what snapshot + log can reproduce
+    let snap_idx = match within(60_000, h.store.get_current_snapshot()).await {
+        Some(Ok(Some(s))) => s.index,
+        Some(Ok(None)) => 0,
+        Some(Err(e)) => vfail!(&clause(id, "snapshot_unreadable"), "{}: get_current_snapshot: {}", what, e),
+        None => vfail!(&clause(id, "reopen_hang"), "{}: get_current_snapshot does not answer", what),
+    };
+    let reach = snap_idx.max(got.last().map(|e| e.index).unwrap_or(0));
+    vensure!(st.last_applied_log <= reach, &clause(id, "applied_beyond_log"), "{}: last applied index {} but snapshot ({}) plus log (..{:?}) reproduce at most {}", what, st.last_applied_log, snap_idx, got.last().map(|e| e.index), reach);
+    // (7) accepts a further append and a second reopen
+    let next_idx = st.last_log_index + 1;
+    let probe = Entry { index: next_idx, term: st.last_log_term.max(1), payload: mk_payload(9_000_000 + next_idx, 3, 0) };
+    if prev.started || !got.is_empty() {
+        match within(120_000, h.store.append_entry_to_log(&probe)).await {
+            Some(Ok(())) => {}
+            Some(Err(e)) => vfail!(&clause(id, "append_after_recovery"), "{}: append at {} (last_log_index+1) rejected after recovery: {}", what, next_idx, e),
+            None => vfail!(&clause(id, "reopen_hang"), "{}: append after recovery does not answer", what),
+        }
+        settle().await;
+        drop(h);
+        tokio::fs::crash(NODE);
+        let h2 = open_store(root, NODE);
+        let got2 = match within(120_000, h2.store.get_log_entries(0, hi + 2)).await {
+            Some(Ok(v)) => v,
+            other => vfail!(&clause(id, "second_reopen"), "{}: second reopen failed: {:?}", what, other.map(|r| r.map(|v| v.len()).map_err(|e| e.to_string()))),
+        };
+        let want: Vec<u64> = got.iter().map(|e| e.index).chain(std::iter::once(next_idx)).collect();
+        let have: Vec<u64> = got2.iter().map(|e| e.index).collect();
+        vensure!(want == have, &clause(id, "second_reopen"), "{}: after recovery + append at {} + clean reopen the log is {:?}..{:?} ({} entries), expected {:?}..{} ({} entries)", what, next_idx, have.first(), have.last(), have.len(), want.first(), next_idx, want.len());
+        drop(h2);
+    } else {
+        drop(h);
+    }
+    Ok(())
 }
